@@ -107,7 +107,7 @@ func scratch() string {
 	return scratchRoot
 }
 
-func exec(t *testing.T, w WL, _ simrt.Config) simh.Outcome {
+func exec(t *testing.T, w WL, cfg simrt.Config) simh.Outcome {
 	o := simh.Outcome{Counters: map[string]int{}}
 	nt := true
 	o.NonTrivial = &nt
@@ -126,7 +126,11 @@ func exec(t *testing.T, w WL, _ simrt.Config) simh.Outcome {
 	ctx := context.Background()
 	simos.Reset(simos.Plan{ShortReads: w.ShortReads, Rel: base})
 	defer simos.Disable()
-	res, err := retriever.Dump(ctx, src, "simdb", stor.Targets(w.DB), stor.DumpOptions(out, w.Opts))
+	var res retriever.DumpResult
+	stor.SimSteps, stor.SimTasks = 0, 0
+	if c, d := stor.UnderSim(t, cfg, "dump", func() { res, err = retriever.Dump(ctx, src, "simdb", stor.Targets(w.DB), stor.DumpOptions(out, w.Opts)) }); c != "" {
+		return fail(c, d)
+	}
 	if err != nil {
 		return fail("oracle:dump_failed", "fault-free dump returned "+err.Error())
 	}
@@ -181,16 +185,24 @@ func exec(t *testing.T, w WL, _ simrt.Config) simh.Outcome {
 			loadDir = filepath.Join(base, "unpacked")
 			uo := retriever.DefaultUnpackOptions(loadDir)
 			uo.ArchiveReader, uo.ArchiveIdentity = &shortReader{&buf, w.ShortReads}, priv
-			if err := retriever.Unpack(uo); err != nil {
-				return fail("oracle:archive", "Unpack of a fresh archive with the matching key: "+err.Error())
+			var uerr error
+			if c, d := stor.UnderSim(t, cfg, "unpack", func() { uerr = retriever.Unpack(uo) }); c != "" {
+				return fail(c, d)
+			}
+			if uerr != nil {
+				return fail("oracle:archive", "Unpack of a fresh archive with the matching key: "+uerr.Error())
 			}
 			o.Counters["path_unpack"]++
 		} else {
 			dst := stor.NewTarget()
 			lo := retriever.DefaultLoadOptions("")
 			lo.ArchiveReader, lo.ArchiveIdentity, lo.BatchSize, lo.VerifyMetrics, lo.ProgressInterval = &shortReader{&buf, w.ShortReads}, priv, w.LoadBatch, true, 0
-			if _, err := retriever.Load(ctx, dst, "simdb", lo); err != nil {
-				return fail("oracle:load", "Load(ArchiveReader) of a fresh archive: "+err.Error())
+			var lerr error
+			if c, d := stor.UnderSim(t, cfg, "loadarchive", func() { _, lerr = retriever.Load(ctx, dst, "simdb", lo) }); c != "" {
+				return fail(c, d)
+			}
+			if lerr != nil {
+				return fail("oracle:load", "Load(ArchiveReader) of a fresh archive: "+lerr.Error())
 			}
 			if d := stor.Compare(w.DB, dst); d != "" {
 				return fail("oracle:isomorphism", d)
@@ -225,6 +237,7 @@ func exec(t *testing.T, w WL, _ simrt.Config) simh.Outcome {
 			o.Counters["verify_rejected_edit"]++
 		}
 	}
+	o.Res.Steps, o.Res.Tasks = stor.SimSteps, stor.SimTasks
 	if rep := simos.Snapshot(); rep.Ops == 0 {
 		return fail("infra", "the simulated file system saw no operation (instrumentation missing?)")
 	}
